@@ -21,7 +21,9 @@ RULE = ("histories = 1-3 Model subclass hierarchies of depth 0-6 built with type
         "placed AFTER Model in the bases (must never run) + 1-4 instances (several of one class too) + 4-30 interleaved "
         "step(*args, **kwargs) calls with matching and mismatching argument lists (0-3, sometimes 6 arguments; in 30 % of the "
         "histories the arguments are twelve exotic objects - None, float, str, tuple, bool, 2**70, numpy scalar, 0-d array, [], dict, "
-        "Decimal, Fraction - mapped back by identity), run_model() and running = True/False, continuing after TypeError and user "
+        "Decimal, Fraction - mapped back by identity), run_model() and running = True/False, pickle round trips (protocols 0-5 and "
+        "default, directly or through a pickled agent / AgentSet of the model) and deepcopies of an instance mid-history with stepping "
+        "continuing on the copy and on the original, continuing after TypeError and user "
         "exceptions; every body logs self.steps, self.running and its arguments; the first part of every run enumerates all "
         "hierarchies of depth <= 3 over 10 level kinds (depth 4 in the thorough tier); non-trivial = at least 2 step/run_model calls "
         "of which one executed user code; distinct = by SHA1 of the history")
@@ -96,6 +98,8 @@ def _resolved(levels):
 
 
 N_EXOTIC = 12
+CLONE_KINDS = ["pickle0", "pickle1", "pickle2", "pickle3", "pickle4", "pickle5", "pickle_default", "pickle_agent",
+               "pickle_agentset", "deepcopy", "copy_agent"]
 
 
 def _exotic_table():
@@ -154,6 +158,11 @@ def _gen_history(rng):
             ops.append(["step", i, args, nkw])
         elif r < 0.8:
             ops.append(["run", i, FUEL])
+        elif r < 0.87 and len(inst_cls) < 6:
+            # a pickle round trip (protocols 0-5, directly or through a pickled agent / AgentSet of the model) or a deepcopy:
+            # stepping continues on the restored instance AND on the original
+            ops.append(["clone", i, rng.choice(CLONE_KINDS)])
+            inst_cls.append(inst_cls[i])
         elif r < 0.93:
             ops.append(["set_running", i, rng.random() < 0.6])
         elif len(inst_cls) < 4:
@@ -184,7 +193,9 @@ def _shape_case(shape, variant):
     good = [] if ar <= 0 else [7] * ar
     ops = [["new", 0], ["new", 0], ["step", 0, good, 0], ["step", 1, [5] if ar < 0 else good, 1 if (ar != 0) else 0],
            ["step", 0, [5, 6], 1], ["step", 0, good, 0], ["run", 1, FUEL], ["run", 0, FUEL],
-           ["set_running", 0, True], ["run", 0, FUEL], ["step", 1, [], 0]]
+           ["set_running", 0, True], ["run", 0, FUEL], ["step", 1, [], 0],
+           ["clone", 0, CLONE_KINDS[(len(shape) + sum(shape)) % len(CLONE_KINDS)]], ["step", 2, good, 0], ["step", 0, good, 0],
+           ["clone", 2, "deepcopy"], ["step", 3, good, 0], ["set_running", 2, True], ["run", 2, FUEL]]
     return {"classes": [levels], "ops": ops}
 
 
@@ -220,6 +231,21 @@ class _Budget(Exception):
 
 class _BadMRO(Exception):
     pass
+
+
+_UID = [0]
+
+
+def _reg(cls):
+    """make a class built with type() picklable by reference: a unique module-level name in this module"""
+    import sys
+
+    _UID[0] += 1
+    name = f"{cls.__name__}_{_UID[0]}"
+    cls.__name__ = cls.__qualname__ = name
+    cls.__module__ = __name__
+    setattr(sys.modules[__name__], name, cls)
+    return cls
 
 
 class _Driver:
@@ -275,7 +301,8 @@ class _Driver:
                 def step(self, *args, **kwargs):      # shadowed by Model.step: must never run
                     drv0.log.append((drv0.index_of(self), 99, self.steps, bool(self.running), []))
 
-            parent = type(f"C{ci}Root", (self.mesa.Model, StepMixin), {})
+            _reg(StepMixin)
+            parent = _reg(type(f"C{ci}Root", (self.mesa.Model, StepMixin), {}))
         root = parent
         res = _resolved(levels)
         drv = self
@@ -317,15 +344,15 @@ class _Driver:
                 exec(src, env)  # noqa: S102 - the source is generated two lines above
                 ns["step"] = env["step"]
             if bases is not None and bases[idx]:
-                cls = type(f"C{ci}L{idx}", tuple(built[b] for b in bases[idx]), ns)
+                cls = _reg(type(f"C{ci}L{idx}", tuple(built[b] for b in bases[idx]), ns))
             else:
-                cls = type(f"C{ci}L{idx}", (parent if bases is None else root,), ns)
+                cls = _reg(type(f"C{ci}L{idx}", (parent if bases is None else root,), ns))
             built[idx] = cls
             holder.append(cls)
             parent = cls
         if falsy:
             top = built[0] if (bases is not None and levels) else parent
-            parent = type(f"C{ci}Falsy", (top,), {"__bool__": lambda self: False, "__len__": lambda self: 0})
+            parent = _reg(type(f"C{ci}Falsy", (top,), {"__bool__": lambda self: False, "__len__": lambda self: 0}))
             if bases is not None and levels:
                 built = dict(built)
                 mro = [c for c in top.__mro__ if c in built.values()]
@@ -433,6 +460,35 @@ class _Driver:
         if kind == "set_running":
             m.running = bool(op[2])
             return [0]
+        if kind == "clone":
+            import copy
+            import pickle
+
+            how = op[2]
+            if how.startswith("pickle") and how[6:].isdigit():
+                r = pickle.loads(pickle.dumps(m, protocol=int(how[6:])))
+            elif how == "pickle_default":
+                r = pickle.loads(pickle.dumps(m))
+            elif how == "deepcopy":
+                r = copy.deepcopy(m)
+            else:
+                if len(m.agents) == 0:
+                    self.mesa.Agent(m)
+                if how == "pickle_agent":
+                    r = pickle.loads(pickle.dumps(m.agents[0], protocol=pickle.HIGHEST_PROTOCOL)).model
+                elif how == "copy_agent":
+                    r = copy.deepcopy(m.agents[0]).model
+                else:
+                    r = next(iter(pickle.loads(pickle.dumps(m.agents)))).model
+            what = f"instance {i} (class levels {levels}) restored through {how} with steps={s0}, running={before[i][1]}"
+            if r is m or type(r) is not type(m):
+                self.fail("C05/Model.copy/not-a-new-instance-of-the-class", f"{what}: got {type(r).__name__}, same object: {r is m}")
+            if (r.steps, bool(r.running)) != before[i] or self.states()[i] != before[i]:
+                self.fail("C05/Model.copy/counter-not-carried-over",
+                          f"{what}: the copy has steps={r.steps}, running={r.running}; the original now {self.states()[i]}")
+            self.insts.append(r)
+            self.inst_cls.append(self.inst_cls[i])
+            return [len(self.insts) - 1]
         start = len(self.log)
         self.calls = 0
         self.budget = None
@@ -553,6 +609,8 @@ def _op(op):
         return f"Step {L.z(op[1])} {L.zlist(op[2])}"
     if op[0] == "run":
         return f"RunModel {L.z(op[1])} {int(op[2])}%nat"
+    if op[0] == "clone":
+        return f"Clone {L.z(op[1])}"
     if op[0] == "set_running":
         return f"SetRunning {L.z(op[1])} {L.b(op[2])}"
     raise ValueError(op)
@@ -570,6 +628,8 @@ def op_kinds(case):
     for op in case["ops"]:
         if op[0] == "step":
             out.append(f"step/{len(op[2])}args/{op[3]}kw")
+        elif op[0] == "clone":
+            out.append(f"clone/{op[2]}")
         else:
             out.append(op[0])
     for ci, c in enumerate(case["classes"]):
@@ -585,7 +645,7 @@ def nontrivial(case):
     return len(calls) >= 2 and any(len(o) > 4 and o[0] == 0 and o[3] > 0 for o in calls)
 
 
-LEVEL_TEXT = ("19 machine-checked Coq theorems (+ 6 examples) over Model/StepCounter.v, Model/C3.v, Proofs/StepCounterProofs.v, for every "
+LEVEL_TEXT = ("20 machine-checked Coq theorems (+ 7 examples) over Model/StepCounter.v, Model/C3.v, Proofs/StepCounterProofs.v, for every "
               "hierarchy (any depth, any subset of levels defining step, any arities, any subset calling super, diamonds and mixins via the "
               "MRO list), every argument list and every outcome (normal, TypeError, exception in user code): without recursion one call "
               "advances steps by exactly one, every user body runs after the increment and sees the new value, the bodies run are "
@@ -594,7 +654,8 @@ LEVEL_TEXT = ("19 machine-checked Coq theorems (+ 6 examples) over Model/StepCou
               "is counted exactly once before its user code (resolved bodies see steps+1, steps+2, ..., final; variadic and "
               "parameterless steps), and with a parameterised step the nested call is counted, rejected, and unwinds the outer call; "
               "run_model performs exactly the calls made while running was true and returns with running false; in every interleaved "
-              "history each instance ends where its own operations alone take it (projection) and steps counts the calls; the C3 "
+              "history each instance ends where its own operations alone take it (projection) and steps counts the calls; a pickle round trip "
+              "or deepcopy yields a new instance with the same counter that is an instance like any other; the C3 "
               "linearisation of every generator-shaped hierarchy of depth <= 7 is the level order. Tied to the code by T1 (statement "
               "order/skeletons re-read from the source on every run) and by differential evaluation under vm_compute on all hierarchies of "
               "depth <= 3 over 10 level kinds and random deeper ones (T2); an independent oracle states the property on the "
